@@ -785,7 +785,7 @@ func (w *Writer) writeImageAtomic(imgAtomic ir.StmtImageAtomic) error {
 
 	// Handle Subtract by negating value
 	if _, isSub := imgAtomic.Fun.(ir.AtomicSubtract); isSub {
-		value = fmt.Sprintf("-%s", value)
+		value = negatedOperand(value)
 	}
 
 	// Build coordinate (including array index if present)
@@ -800,6 +800,15 @@ func (w *Writer) writeImageAtomic(imgAtomic ir.StmtImageAtomic) error {
 
 	w.WriteLine("imageAtomic%s(%s, %s, %s);", funStr, image, coord, value)
 	return nil
+}
+
+// negatedOperand writes -value; a value that itself starts with a minus sign
+// (a negative literal) is parenthesised, "--3" being a decrement.
+func negatedOperand(value string) string {
+	if len(value) > 0 && value[0] == '-' {
+		return "-(" + value + ")"
+	}
+	return "-" + value
 }
 
 // writeAtomic writes an atomic operation statement.
@@ -827,7 +836,7 @@ func (w *Writer) writeAtomic(atomic ir.StmtAtomic) error {
 		// Rust naga emits "-" before the expression without parentheses:
 		// atomicAdd(ptr, -1u) not atomicAdd(ptr, -(1u))
 		funcName = "atomicAdd"
-		value = fmt.Sprintf("-%s", value)
+		value = negatedOperand(value)
 	case ir.AtomicAnd:
 		funcName = "atomicAnd"
 	case ir.AtomicExclusiveOr:
